@@ -13,7 +13,7 @@ INT_PRIMS = {'u8', 'u16', 'u32', 'u64', 'u128', 'usize', 'i8', 'i16', 'i32', 'i6
 
 ITER_TAGS = {'elems', 'map', 'filter', 'take_while', 'skip_while', 'flat_map', 'filter_map', 'take', 'skip',
              'step_by', 'rev', 'enumerate', 'dedup', 'kmerge', 'cycle', 'zip', 'chain', 'merge', 'sorted',
-             'range', 'once', 'empty', 'repeat', 'steps'}
+             'range', 'once', 'empty', 'repeat', 'steps', 'optiter'}
 
 # functions the rules inspect themselves; never inlined
 NOINLINE = {
@@ -67,9 +67,15 @@ class Closure:
 
 
 class Evaluator:
-    def __init__(self, crate, max_depth=7):
+    def __init__(self, crate, max_depth=7, inline_private_loops=False):
         self.crate = crate
         self.max_depth = max_depth
+        # summaries only: a crate-private helper whose loop does not reduce is evaluated in place, as if its body were
+        # written at the call (so that extracting a loop into a helper, or folding one back, does not change a summary)
+        self.inline_private_loops = inline_private_loops
+        self.transparent = []
+        self.transparent_seen = set()     # private loop helpers evaluated in place
+        self.opaque_loop_calls = set()    # crate-local callees with loops that stayed opaque calls
         self.closures = {}
         self.refs = {}           # value term of a mutable element reference -> (collection place node, index term)
         self.nclo = 0
@@ -273,6 +279,51 @@ class Evaluator:
             return t
         return T.shift_binders(t, min(lows), self.bvd - min(lows) + 1)
 
+    def len_of(self, v):
+        """length of a collection term; adaptors that keep the number of items are seen through"""
+        v = T.unroot(v)
+        while isinstance(v, tuple) and v and v[0] in ('map', 'rev', 'enumerate', 'sorted') :
+            v = v[1]
+        if isinstance(v, tuple) and v and v[0] == 'elems':
+            v = v[1]
+        return T.root(('len', v))
+
+    def indexed(self, it):
+        """(count, k-th item over $bvd) of an iterator whose k-th item is a function of k: a slice, its reverse, a map of those"""
+        d = self.bvd
+        k = T.as_lin(T.bv(d))
+        if not isinstance(it, tuple) or not it:
+            return None
+        if it[0] == 'elems' and not (isinstance(it[1], tuple) and it[1] and it[1][0] == 'call'):
+            return T.root(('len', it[1])), T.root(('idx', it[1], k))
+        if it[0] == 'rev':
+            sub = self.indexed(it[1])
+            if sub is not None:
+                n, e = sub
+                return n, T.substitute(e, {T.bv(d): T.sub(T.sub(n, T.const(1)), k)})
+        if it[0] == 'map' and it[2][0] == 'lam':
+            sub = self.indexed(it[1])
+            if sub is not None:
+                n, e = sub
+                return n, T.substitute(it[2][2], {T.bv(it[2][1]): e})
+        if it[0] == 'range' and it[2] != ('inf',) and T.is_lin(it[1]) and T.is_lin(it[2]):
+            return T.sub(it[2], it[1]), T.add(it[1], k)
+        if it[0] in ('map', 'filter', 'take_while', 'take', 'dedup', 'sorted'):
+            # a collection that was materialised from a finite pipeline (e.g. the delta-min vector of a converted curve)
+            from .rules_total import finiteness
+            if finiteness(it) == 'finite':
+                return self.len_of(it), T.root(('idx', it, k))
+        return None
+
+    def pc_min(self, a, b):
+        """min(a, b), decided by the current path condition when it orders the two"""
+        from .sites import implies_nonneg
+        if implies_nonneg(T.sub(b, a), self.pc) is not None:
+            return T.as_lin(a)
+        if implies_nonneg(T.sub(a, b), self.pc) is not None:
+            return T.as_lin(b)
+        return T.tmin(a, b)
+
     def count_stage(self, name, it, n):
         """take / skip commute with map; on a range they move its bounds"""
         if name in ('take', 'skip') and isinstance(it, tuple) and it and it[0] == 'map':
@@ -281,7 +332,7 @@ class Evaluator:
             lo, hi = it[1], it[2]
             if name == 'take':
                 end = T.add(lo, n)
-                return ('range', lo, end if hi == ('inf',) else T.tmin(hi, end))
+                return ('range', lo, end if hi == ('inf',) else self.pc_min(hi, end))
             return ('range', T.add(lo, n), hi)
         return (name, it, n)
 
@@ -680,7 +731,23 @@ class Evaluator:
         ad = self.iterator_adapter(ty_adt or path, fields)
         if ad is not None:
             return ad
-        return T.struct(ty_adt or path, fields)
+        return self.eta_struct(ty_adt or path, fields)
+
+    def eta_struct(self, path, fields):
+        """S { f1: x.f1, .., fn: x.fn } with all the fields of S taken from one value x is x (a clone through the constructor)"""
+        adt = self.crate.adts.get(path)
+        if adt and adt.get('kind') == 'Struct' and len(adt.get('variants', [])) == 1 and fields:
+            names = [self.field_name(path, f['name']) for f in adt['variants'][0]['fields']]
+            bases = set()
+            for n in names:
+                v = T.unroot(fields.get(n)) if n in fields else None
+                if not (isinstance(v, tuple) and len(v) == 3 and v[0] == 'f' and v[2] == n):
+                    bases = None
+                    break
+                bases.add(v[1])
+            if bases is not None and len(bases) == 1 and set(fields) == set(names):
+                return bases.pop()
+        return T.struct(path, fields)
 
     def iterator_adapter(self, ty, fields):
         """a crate-local struct whose Iterator::next only pulls one item from an iterator it holds in a field and maps it
@@ -1534,7 +1601,7 @@ class Evaluator:
             return ('err', args[0])
         if path in self.newtypes and len(args) == 1:
             return args[0]
-        return T.struct(path, {self.field_name(path, str(i)): a for i, a in enumerate(args)})
+        return self.eta_struct(path, {self.field_name(path, str(i)): a for i, a in enumerate(args)})
 
     def ev_Call(self, e, env, body, depth):
         f = e['f']
@@ -1653,14 +1720,50 @@ class Evaluator:
             if lid is not None and lid in env and e['recv'].get('k') in ('Path',) or (lid is not None and lid in env and self.place_text(e['recv']).count('.') == 0):
                 env[lid] = ('sorted', self.as_iter(recv))
                 return ('unit',)
+        noted = None
         if (any('Mut' in a and 'Borrow' in a for a in adj) or e.get('recv_ty', '').startswith('&mut')) \
                 and not (callee.startswith('std::iter::Iterator::') and e['recv'].get('k') == 'MethodCall') \
                 and not (e['name'] == 'get_mut' and ('slice' in callee or 'Vec' in callee)):
-            self.emit('mutcall', e, body, callee=callee, args=tuple(args), target=self.place_root(e['recv']),
-                      place=self.place_text(e['recv']))
+            noted = self.emit('mutcall', e, body, callee=callee, args=tuple(args), target=self.place_root(e['recv']),
+                              place=self.place_text(e['recv']))
         elif e.get('callee_local'):
-            self.emit('call', e, body, callee=callee, args=tuple(args))
-        return self.call_fn(callee, e.get('targs', []), args, e, body, depth)
+            noted = self.emit('call', e, body, callee=callee, args=tuple(args))
+        self.was_transparent = False
+        v = self.call_fn(callee, e.get('targs', []), args, e, body, depth)
+        if self.was_transparent and noted is not None:
+            # the callee was evaluated in place: its effects are listed themselves, the call is not an effect of its own
+            self.events[:] = [x for x in self.events if x is not noted]
+        if self.was_transparent:
+            for i, final in getattr(self, 'transparent_out', []):
+                self.write_back(e['recv'] if i == 0 else e['args'][i - 1], final, env)
+            self.transparent_out = []
+        self.was_transparent = False
+        return v
+
+    def write_back(self, place, v, env):
+        """the value a callee evaluated in place left behind a `&mut` argument becomes the value of the caller's place
+        (no event: the callee's own assignments are already recorded)"""
+        p = place
+        fields = []
+        while True:
+            k = p.get('k')
+            if k == 'Path' and p.get('res') == 'Local':
+                break
+            if k == 'Field':
+                bty = strip_refs(p.get('base_ty', '')).split('<')[0]
+                if not (bty in self.newtypes and self.newtypes[bty] == p['name']):
+                    fields.append(self.field_name(bty, p['name']))
+                p = p['e']
+            elif k in ('DropTemps', 'Use', 'AddrOf') or (k == 'Unary' and p.get('op') == 'Deref'):
+                p = p['e']
+            else:
+                return
+        lid = p['id']
+        if not fields:
+            env[lid] = v
+        else:
+            cur = env.get(lid, ('free', p['name'], lid))
+            env[lid] = self.update_field(cur, list(reversed(fields)), v)
 
     def place_text(self, e):
         parts = []
@@ -1690,6 +1793,9 @@ class Evaluator:
         t = T.unroot(t)
         if self.iterish(t):
             return t
+        ov = self.opt_view(t) if isinstance(t, tuple) and t and t[0] in ('first', 'last', 'front', 'back', 'optidx', 'csub', 'boolthen') else None
+        if ov is not None:
+            return ('optiter', ov[0], ov[1])     # an Option iterated: its payload once if it is Some
         if isinstance(t, tuple) and len(t) == 2 and t[0] == 'arr' and 1 <= len(t[1]) <= 4:
             # a short array literal iterated by value: once(a).chain(once(b))..
             it = ('once', t[1][0])
@@ -1736,6 +1842,12 @@ class Evaluator:
                 self.site(op, node, args[0], args[1], body)
             return self.arith(op, args[0], args[1], node or {})
         # --- numeric primitives
+        if name == 'div_ceil' and len(args) == 2 and (path.startswith('core::num') or path.startswith('std::num') or '::num::' in path):
+            # a.div_ceil(b)  ==  a / b + [a % b != 0]
+            q = T.div(args[0], args[1])
+            if node is not None:
+                self.site('Div', node, args[0], args[1], body)
+            return T.add(q, T.ind(T.tnot(T.eq0(T.rem(args[0], args[1])))))
         if name == 'saturating_sub' and len(args) == 2 and (path.startswith('core::num') or path.startswith('std::num') or '::num::' in path):
             return T.pos(T.sub(args[0], args[1]))
         if name == 'checked_sub' and len(args) == 2 and (path.startswith('core::num') or path.startswith('std::num') or '::num::' in path):
@@ -1790,6 +1902,12 @@ class Evaluator:
                 return (name, self.as_iter(a0))
             if name in BINARY_STAGES and len(args) == 2:
                 a, b2 = self.as_iter(a0), self.as_iter(args[1])
+                if name == 'zip' and not (b2[0] == 'map' and b2[1] == a):
+                    ia, ib = self.indexed(a), self.indexed(b2)
+                    if ia is not None and ib is not None:
+                        # both sides are indexable: the k-th pair is (a_k, b_k) for k below the shorter length
+                        d = self.bvd
+                        return ('map', ('range', T.const(0), T.tmin(ia[0], ib[0])), ('lam', d, T.tup(ia[1], ib[1])))
                 if name == 'zip' and b2[0] == 'map' and b2[1] == a and b2[2][0] == 'lam':
                     d = b2[2][1]
                     return ('map', a, ('lam', d, T.tup(T.bv(d), b2[2][2])))
@@ -1937,7 +2055,7 @@ class Evaluator:
             v = T.unroot(a0)
             if isinstance(v, tuple) and v and v[0] == 'elemhavoc':
                 v = v[1]
-            return T.root(('len', v))
+            return self.len_of(v)
         if name == 'is_empty' and len(args) == 1 and ('slice' in path or 'Vec' in path or 'VecDeque' in path):
             return T.eq0(T.root(('len', T.unroot(a0))))
         if name in ('last', 'first', 'back', 'front') and len(args) == 1 and ('slice' in path or 'VecDeque' in path):
@@ -1964,6 +2082,29 @@ class Evaluator:
                                                                          and not (b.raw.get('trait') and not b.raw.get('impl'))) else None
             if v is not None:
                 return v
+            if self.inline_private_loops and body is not None and self.transparent_ok(b, body):
+                self.transparent.append(b.path)
+                self.transparent_seen.add(b.path)
+                cenv = {}
+                for i, p in enumerate(b.params):
+                    self.bind(p, args[i] if i < len(args) else T.param(i), cenv)
+                try:
+                    v = self.unwrap_ret(self.ev(b.body, cenv, b, depth))
+                finally:
+                    self.transparent.pop()
+                self.was_transparent = True
+                # what the callee left behind `&mut` parameters is written back to the caller's places by the call site
+                self.transparent_out = []
+                for i, p in enumerate(b.params):
+                    q = p
+                    while q.get('k') in ('Ref', 'Deref'):
+                        q = q['p']
+                    ity = (b.raw.get('inputs') or [])
+                    if q.get('k') == 'Bind' and i < len(ity) and ity[i].startswith('&mut') and i < len(args) and cenv.get(q['id']) is not None \
+                            and cenv[q['id']] is not args[i] and cenv[q['id']] != args[i]:
+                        self.transparent_out.append((i, cenv[q['id']]))
+                return v
+            self.opaque_loop_calls.add(b.path)
             b = None    # keep the call opaque (the callee is analysed on its own)
         if b is not None and path not in NOINLINE and depth < self.max_depth and b.kind in ('Fn', 'AssocFn'):
             # trait *declarations* with default bodies stay opaque: dispatch is dynamic
@@ -1977,6 +2118,19 @@ class Evaluator:
         if path in NOINLINE and node is not None:
             self.trace.append(('call', node, (path, tuple(args))))
         return T.root(T.call(path, *[T.unroot(a) for a in args]))
+
+    def transparent_ok(self, b, body):
+        if b.path in self.transparent or len(self.transparent) >= 2 or b is body or b.kind not in ('Fn', 'AssocFn'):
+            return False
+        if self.inline_private_loops == 'unit' and b.raw.get('output') != '()':
+            # value-returning loop helpers: the havocked loop gives no usable value, the call stays an opaque term
+            return False
+        if not str(b.raw.get('vis', '')).startswith('Restricted') or b.raw.get('impl_trait') or (b.raw.get('trait') and not b.raw.get('impl')):
+            return False
+        # loop node numbers are per body: a clash would conflate loop-carried values of the two bodies
+        mine = {n.get('_nid') for n in body.walk() if n.get('k') == 'Loop'} | {n.get('_nid') for n in (self.top_body.walk() if self.top_body is not None else []) if n.get('k') == 'Loop'}
+        theirs = {n.get('_nid') for n in b.walk() if n.get('k') == 'Loop'}
+        return not (mine & theirs)
 
     def try_inline_loop_fn(self, b, path, args, node, body, depth):
         if any(c == path for c, _, _ in self.stack):
@@ -2020,7 +2174,23 @@ class Evaluator:
             self._loopcache = {}
         if b.path not in self._loopcache:
             self._loopcache[b.path] = any(n.get('k') == 'Loop' for n in b.walk())
+            if not self._loopcache[b.path] and self.inline_private_loops:
+                # a function that runs its loop in a private helper evaluated in place has that loop, too (so that callers
+                # treat `f` alike whether its loop is written in f or in a helper of f)
+                for n in b.walk():
+                    if n.get('k') in ('Call', 'MethodCall') and n.get('callee'):
+                        cb = self.crate.body(n['callee'])
+                        if cb is not None and cb is not b and self.transparent_static_ok(cb) and self.has_loop(cb):
+                            self._loopcache[b.path] = True
+                            break
         return self._loopcache[b.path]
+
+    def transparent_static_ok(self, b):
+        if b.kind not in ('Fn', 'AssocFn'):
+            return False
+        if self.inline_private_loops == 'unit' and b.raw.get('output') != '()':
+            return False
+        return str(b.raw.get('vis', '')).startswith('Restricted') and not b.raw.get('impl_trait') and not (b.raw.get('trait') and not b.raw.get('impl'))
 
     def unwrap_ret(self, v):
         if isinstance(v, tuple) and v and v[0] == 'ret':
@@ -2054,8 +2224,41 @@ class Evaluator:
                 return T.cmp('Ge', n, T.const(1)), T.root(('idx', su[1], ix))
         return None
 
+    def range_empty(self, it):
+        """is the iterator provably empty under the current path condition? (a range whose end does not exceed its start)"""
+        from .sites import implies_nonneg
+        while isinstance(it, tuple) and it and it[0] in ('map', 'filter', 'take', 'skip', 'rev', 'enumerate', 'take_while', 'skip_while'):
+            it = it[1]
+        if isinstance(it, tuple) and it and it[0] == 'range' and it[2] != ('inf',) and T.is_lin(it[1]) and T.is_lin(it[2]):
+            return implies_nonneg(T.sub(it[1], it[2]), self.pc) is not None
+        return isinstance(it, tuple) and it == ('empty',)
+
     def opt_or(self, o, d):
         o = T.unroot(o)
+        if isinstance(o, tuple) and o and o[0] in ('minof', 'maxof'):
+            src = o[1]
+            n = None
+            if isinstance(src, tuple) and src and src[0] == 'take' and isinstance(src[1], tuple) and src[1] and src[1][0] == 'chain':
+                src, n = src[1], T.as_lin(src[2])
+            if isinstance(src, tuple) and src and src[0] == 'chain' and isinstance(src[1], tuple) and src[1] and src[1][0] == 'optiter':
+                # min / max over `option.into_iter().chain(rest)[.take(n)]`, with a default for the empty case
+                c0, x, rest = src[1][1], src[1][2], src[2]
+                agg = o[0]
+                comb = T.tmin if agg == 'minof' else T.tmax
+                if n is None:
+                    then_v = self.with_pc([c0], lambda: comb(x, T.root((agg, rest))) if not self.range_empty(rest) else x)
+                    else_v = self.with_pc([T.tnot(c0)], lambda: self.opt_or((agg, rest), d))
+                    return T.ite(c0, then_v, else_v)
+                some_n = T.cmp('Ge', n, T.const(1))
+
+                def taken(m):
+                    return self.count_stage('take', rest, m)
+                then_v = self.with_pc([c0, some_n], lambda: (lambda r: x if self.range_empty(r) else comb(x, T.root((agg, r))))(taken(T.sub(n, T.const(1)))))
+                e1 = self.with_pc([c0, T.tnot(some_n)], lambda: self.opt_or((agg, taken(T.const(0))), d))
+                e2 = self.with_pc([T.tnot(c0)], lambda: self.opt_or((agg, taken(n)), d))
+                return T.ite(c0, T.ite(some_n, then_v, e1), e2)
+            if self.range_empty(src):
+                return d
         ov = self.opt_view(o)
         if ov is not None and not (o[0] == 'csub' and T.as_lin(d) == T.const(0)):
             return T.ite(ov[0], ov[1], d)
